@@ -46,7 +46,7 @@ C_UNITS = {
 
 BASE_DEFS = ["-DNDEBUG", "-D__NO_CTYPE", "-DRTOSC_VERIF"]
 BASE_INC = ["-I" + os.path.join(REPO, "include"), "-I" + os.path.join(REPO, "src"),
-            "-I" + os.path.join(REPO, "src/cpp"), "-I" + STUBS]
+            "-I" + os.path.join(REPO, "src/cpp"), "-I" + STUBS, "-I" + os.path.join(HARN, "common")]
 CBMC_FLAGS = ["--unwinding-assertions", "--drop-unused-functions",
               "--no-signed-overflow-check", "--no-undefined-shift-check",
               "--no-malloc-may-fail", "--no-pointer-primitive-check",
